@@ -283,6 +283,14 @@ def lenientForms : List (String × Py.PTriple) :=
     ("<a:s> <a:p> \"\\uD800\" .", (s, p, .lit [0xD800] none none)),
     ("<a:s> <a:p> \"x\"^^<> .", (s, p, .lit (Py.code "x".toList) none none)) ]
 
+/-- class 1 in general: the IRIREF token rdflib's parser eats is exactly a run of characters other than #x00-#x20 `<` `>` `"`
+    up to the next `>` — [8] IRIREF without its exclusion of `{ } | ^ backquote` and with the backslash as an ordinary character
+    (what `unquote` then makes of it is `Py.decodeAux`) -/
+def Statement_ntparser_iriref_token : Prop :=
+  ∀ (cs u rest : Str), Py.matchUriref ('<' :: cs) = some (u, rest) ↔ (u.all Py.uriChar = true ∧ cs = u ++ '>' :: rest)
+
+theorem ntparser_iriref_token : Statement_ntparser_iriref_token := matchUriref_iff
+
 def Statement_ntparser_lenient_forms : Prop :=
   ∀ e ∈ lenientForms, NT.parseLine e.1.toList = none ∧ Py.ntParseline e.1.toList = .ok (some e.2)
 
